@@ -48,9 +48,9 @@ func (sh vShape) nWAL() int { return sh.fullWALs + sh.incs*sh.walsPerInc }
 // consolidate and only deletes the older snapshots.
 func (sh vShape) removalOnly() bool { return sh.fullWALs == 0 && sh.incs == 0 && sh.older > 0 }
 
-func vChooseShape() vShape {
+func vChooseShape(tier int) vShape {
 	sh := vShape{walsPerInc: 1}
-	if verifTier() == 0 {
+	if tier == 0 {
 		sh.older = verifChoice("older", 2)
 		sh.fullWALs = verifChoice("fullWALs", 2)
 		sh.incs = verifChoice("incs", 3)
@@ -240,13 +240,27 @@ func vCrashScenario(sh vShape, repairs int, insideInRepair bool) (root, dir stri
 	return
 }
 
-// VerifC07Crash: for every shape, a crash at every crash point of the reap, followed by a crash
-// at every crash point of the start-up repair (or none).
+// VerifC07Crash: for every shape, a crash at every crash point of the reap (between calls, and
+// inside the calls that are not atomic with every partial state), followed by a crash of the
+// start-up repair (or none) at every crash point between calls and inside db.CheckpointRemove.
 func VerifC07Crash() {
 	verifPanicsAreViolations()
-	sh := vChooseShape()
-	root, dir, pre, _ := vCrashScenario(sh, 1, verifTier() > 0)
+	vCrashAndRecover(vChooseShape(verifTier()), false)
+}
+
+// VerifC07CrashTwiceInside (thorough): the shapes of the quick tier, with the crash of the repair
+// at every crash point inside the calls that are not atomic as well (so: both crashes inside).
+func VerifC07CrashTwiceInside() {
+	verifPanicsAreViolations()
+	vCrashAndRecover(vChooseShape(0), true)
+}
+
+func vCrashAndRecover(sh vShape, insideInRepair bool) {
+	root, dir, pre, _ := vCrashScenario(sh, 1, insideInRepair)
 	defer vDropRoot(root)
+	if insideInRepair && len(vPartialLog) == 2 {
+		verifReach("both-crashes-inside-a-call")
+	}
 
 	// the next start of the store
 	st := vBareStore(dir)
